@@ -116,6 +116,7 @@ type Client struct {
 	registeredTopicsLock sync.RWMutex
 	messageHandlers      *messageHandlers
 	transactions         *transactions.TransactionStore
+	pingMutex            sync.Mutex // guards the creation of the PINGREQ transaction, see ping()
 	msgID                *util.IDSequence
 	conn                 net.Conn
 	state                *util.ClientState
@@ -517,18 +518,35 @@ func (c *Client) Ping() error {
 // goroutines finish iff waitForGroup is true. It must be false if ping is
 // called from one of those goroutines (it would wait for itself forever).
 func (c *Client) ping(waitForGroup bool) error {
-	transaction := newPingTransaction(c)
-	ping := pkts1.NewPingreq(nil)
-	c.transactions.StoreByType(pkts.PINGREQ, transaction)
-	if !waitForGroup && c.state.Get() != util.StateActive {
-		// Keep-alive ping but the client has just left the active state
-		// (setState did not see this transaction yet).
-		transaction.Fail(errNotActive)
-		return errNotActive
+	// There is one PINGREQ transaction at a time: a ping issued while another
+	// one waits for its PINGRESP (Ping() during a keep-alive ping or vice
+	// versa) joins it. A second transaction would replace the first one in
+	// the transaction store; the first one would never get its PINGRESP,
+	// it would go on retransmitting even after the client has fallen asleep
+	// and it would fail in the end.
+	c.pingMutex.Lock()
+	var transaction *pingTransaction
+	transactionx, joined := c.transactions.GetByType(pkts.PINGREQ)
+	if joined {
+		transaction, joined = transactionx.(*pingTransaction)
 	}
-	transaction.Proceed(nil, ping)
-	if err := c.send(ping); err != nil {
-		transaction.Fail(err)
+	if !joined {
+		transaction = newPingTransaction(c)
+		c.transactions.StoreByType(pkts.PINGREQ, transaction)
+	}
+	c.pingMutex.Unlock()
+	if !joined {
+		ping := pkts1.NewPingreq(nil)
+		if !waitForGroup && c.state.Get() != util.StateActive {
+			// Keep-alive ping but the client has just left the active state
+			// (setState did not see this transaction yet).
+			transaction.Fail(errNotActive)
+			return errNotActive
+		}
+		transaction.Proceed(nil, ping)
+		if err := c.send(ping); err != nil {
+			transaction.Fail(err)
+		}
 	}
 	select {
 	case <-transaction.Done():
